@@ -17,7 +17,7 @@ from .. import impl as I
 from .c03 import project, first_diff
 
 S = M.step
-FORMS = ['Feature: x', 'Scenario: x', 'Examples:', 'Given x', '@t', '# c', '#language: fr', '| a |', '', '   ', 'OTHER', 'ESC', 'ESC-OTHER', 'text  ']
+FORMS = ['Feature: x', 'Scenario: x', 'Examples:', 'Given x', '@t', '# c', '#language: fr', '| a |', '', '   ', 'OTHER', 'ESC', 'ESC-OTHER', 'text  ', 'MID']
 RELS = ['less', 'equal', 'more']
 DELIMS = ['"""', '```']
 INDENTS = [0, 2, 5]
@@ -32,7 +32,8 @@ COMBOS_ALL = list(itertools.product(MEDIA, HOSTS, FOLLOW, ['\n', '\r\n']))
 def content_line(form, rel, delim, dind):
     other = '```' if delim == '"""' else '"""'
     esc = {'"""': '\\"\\"\\"', '```': '\\`\\`\\`'}
-    text = {'OTHER': other, 'ESC': esc[delim], 'ESC-OTHER': esc[other]}.get(form, form)
+    text = {'OTHER': other, 'ESC': esc[delim], 'ESC-OTHER': esc[other],
+            'MID': 'x = %s mid %s %s end' % (esc[delim], esc[other], esc[delim])}.get(form, form)
     if rel == 'less':
         if dind == 0:
             return None
